@@ -106,7 +106,7 @@ def check(ctx):
             continue
         rows.append({"buf": buf, "res": {"st": y["st"], "hdr": y["hdr"], "flows": y["flows"]}})
         if y.get("prev_changed"):
-            ctx.violation("NetFlow v5: the message decoded (and encoded) from the previous datagram no longer holds its flows after this "
+            ctx.violation("NetFlow v5: the message decoded (and encoded) from the previous datagram no longer holds what it held (header, agent, flows) after this "
                           "datagram was decoded: decoded messages share storage", {"buf": buf}, key="v5:prev-changed")
         if job.get("want_json") and y["st"] == "ok" and y["flows"]:
             # "with addresses rendered in dotted form in the JSON" (the document's other fields are C05's business, checked alike)
